@@ -137,3 +137,21 @@ contract(PO + '.stale_sources_for_person', types={'name_id': NID, 'sources': 'Op
                    'ite(truthy(sources), contains(seq(sources), e), has_key(as_type(self.cache._db[code_of(name_id)], "Dict(Str, Any)"), e))), "Val")')],
          raises={'KeyError': 'True', 'ValueError': 'True', 'AttributeError': 'True', 'TypeError': 'True'}, modifies=[],
          clauses_from={'C19': ['C19-stale-sources-are-sources-of-the-subject']})
+contract(CA + '.receivers', types={'name_id': NID}, returns='List(Str)',
+         requires=['forall(lambda k: implies(has_key(self._db, k), typed(self._db[k], "Dict(Str, %s)")), "Val")' % ENTRY],
+         ensures=[('C19-exactly-the-sources-of-the-subject',
+                   'fresh(result) and forall(lambda e: contains(seq(result), e) == '
+                   'has_key(as_type(self._db[code_of(name_id)], "Dict(Str, Any)"), e), "Val")')],
+         raises={'KeyError': 'not has_key(self._db, code_of(name_id))'}, modifies=[],
+         clauses_from={'C19': ['C19-exactly-the-sources-of-the-subject']})
+contract(PO + '.get_entityid', types={'name_id': NID, 'source_id': 'Str', 'check_not_on_or_after': 'Any'}, returns='Any',
+         requires=[_DB_OK],
+         lets={'TS': 'ENTRY_OF(self.cache, name_id, source_id)[0]'},
+         ensures=[# an identifier is read only out of the entry of exactly this subject and source, and never out of an expired one
+                  ('C19-right-subject-and-source', 'result == "" or HAS_ENTRY(self.cache, name_id, source_id)'),
+                  ('C19-unknown-yields-empty', 'implies(not HAS_ENTRY(self.cache, name_id, source_id), result == "")'),
+                  ('C19-not-expired', 'implies(result != "" and truthy(check_not_on_or_after) and is_int(TS) and truthy(TS), NOW <= int_of(TS))')],
+         raises={'saml2_tophat.cache:ToOld': 'HAS_ENTRY(self.cache, name_id, source_id) and truthy(check_not_on_or_after) and '
+                          '(not truthy(TS) or not is_int(TS) or NOW >= int_of(TS))',
+                 'AttributeError': 'True', 'TypeError': 'True'},
+         modifies=[], clauses_from={'C19': ['C19-right-subject-and-source', 'C19-unknown-yields-empty', 'C19-not-expired']})
